@@ -27,7 +27,7 @@ def deep_ref_layers(r):
     """A parameter whose layers are (mostly or only) whole-value references to mappings that
     collide `d` levels down (d = 2..5); the targets may be reached through alias chains and
     the parameter may itself sit below another mapping."""
-    d = r.range(2, 5)
+    d = r.choice([2, 3, 3, 4, 5, 7, 9, 12])
     path = ["p%d" % j for j in range(d)]
     k = r.range(2, 4)
     same_kind = r.chance(70, 100)
@@ -150,5 +150,121 @@ def both_flags(r):
     return layers
 
 
-FAMILIES = {"deep_ref_layers": deep_ref_layers, "repeated_layers": repeated_layers, "escapes_in_containers": escapes_in_containers,
+def many_layers(r, tier="quick"):
+    """One key written by many layers (past any threshold at which layers might be compacted): lists, mappings,
+    nulls, sometimes one layer of a conflicting kind, sometimes references, and often a final `~` override
+    (which must discard everything before it, a conflict included)."""
+    n = r.choice(SIZES_QUICK if tier == "quick" else SIZES_THOROUGH[:6])
+    kind = r.choice(["list", "map"])
+    nested = r.chance(1, 2)
+    layers = [G.M([["base", [G.I(0)] if kind == "list" else G.M([["b", G.I(0)]])]])]
+    conflict_at = r.below(n) if r.chance(60, 100) else -1
+    for i in range(n):
+        if i == conflict_at:
+            v = r.choice([G.I(99), True, G.M([["odd", G.I(1)]]) if kind == "list" else [G.I(1)]])
+        elif r.chance(6, 100):
+            v = None
+        elif r.chance(8, 100):
+            v = "${base}"
+        else:
+            v = [G.I(i)] if kind == "list" else G.M([["k%d" % (i % 7), G.I(i)]])
+        layers.append(G.M([["p", G.M([["k", v]])]]) if nested else G.M([["k", v]]))
+    end = r.choice(["override", "override", "none", "plain", "const"])
+    if end != "none":
+        key = {"override": "~k", "plain": "k", "const": "=k"}[end]
+        v = r.choice([[G.I(7)], G.M([["z", G.I(7)]]), G.I(7), "done"])
+        layers.append(G.M([["p", G.M([[key, v]])]]) if nested else G.M([[key, v]]))
+    if r.chance(1, 3):
+        layers.append(G.M([["use", "${p:k}" if nested else "${k}"]]))
+    return layers
+
+
+def many_refs(r, tier="quick"):
+    """More sibling references in one string, and more reference layers on one parameter, than the depth limit (64)
+    counts along any single chain: none of this is deep, so nothing may be rejected."""
+    n = r.choice([10, 33, 63, 64, 65, 70, 130] if tier == "quick" else [63, 64, 65, 70, 130, 260, 520])
+    mode = r.choice(["string", "string_chains", "layers", "nested_layers", "string_containers"])
+    base = [["k%d" % i, r.choice([G.I(i), "v%d" % i])] for i in range(n)]
+    if mode == "string":
+        return [G.M(base + [["joined", "|".join("${k%d}" % i for i in range(n))]])]
+    if mode == "string_chains":
+        c = r.range(2, 8)
+        m = max(2, n // c)
+        ch = []
+        for i in range(m):
+            ch.append(["c%d_0" % i, G.I(i)])
+            for j in range(1, c):
+                ch.append(["c%d_%d" % (i, j), "${c%d_%d}" % (i, j - 1)])
+        return [G.M(ch + [["joined", "-".join("${c%d_%d}" % (i, c - 1) for i in range(m))]])]
+    if mode == "string_containers":
+        m = max(2, n // 2)
+        return [G.M([["m", G.M([["a", G.I(1)]])], ["l", [G.I(1), "x"]], ["joined", " ".join("${m}${l}" for _ in range(m))]])]
+    if mode == "layers":
+        kind = r.choice(["list", "map"])
+        tg = [["t%d" % i, [G.I(i)] if kind == "list" else G.M([["k%d" % i, G.I(i)]])] for i in range(n)]
+        return [G.M(tg)] + [G.M([["p", "${t%d}" % i]]) for i in range(n)]
+    # nested_layers: reference layers stacked on reference layers
+    w = r.range(3, 5)
+    layers = []
+    for i in range(w):
+        layers.append(G.M([["leaf%d" % i, G.M([["x%d" % i, G.I(i)]])], ["l1", "${leaf%d}" % i], ["l2", "${l1}"], ["l3", "${l2}"]]))
+    layers.append(G.M([["top", "${l3}"]]))
+    return layers
+
+
+def empty_segments(r):
+    """Empty keys and empty path segments: '' is an ordinary key, `${m:}` looks it up, `${:a}` starts with it,
+    and a nested reference may render to the empty string."""
+    inner = G.M([["", r.choice([G.I(1), G.M([["cpu", G.I(1)]]), [G.I(1)], "empty-key"])], ["big", G.I(2)], ["a", G.M([["", G.I(3)]])]])
+    has_top_empty = r.chance(1, 2)
+    base = [["m", inner], ["variant", ""], ["noempty", G.M([["a", G.I(1)]])]]
+    if has_top_empty:
+        base.append(["", G.M([["a", G.I(9)], ["", G.I(8)]])])
+    uses = ["${m:}", "${m:${variant}}", "${noempty:}", "${m:a:}", "${:a}", "${:}", "${m::}", "x${m:}y", "${noempty:${variant}}", "${}", "${m:big}", "${m:a}"]
+    L = base + [["u%d" % i, u] for i, u in enumerate(r.shuffle(uses)[: r.range(1, 4)])]
+    return [G.M(L)]
+
+
+def override_through_path(r):
+    """A nested `~key` (or `=key`, or null) inside a mapping that several layers define, read through multi-segment
+    references that walk through the layered mapping."""
+    k = r.choice(["limits", "mode"])
+    first = r.choice([G.M([["mem", G.I(1)], ["cpu", G.I(2)]]), [G.I(1), G.I(2)], "simple"])
+    second = r.choice([G.M([["mem", G.I(5)]]), [G.I(9)], "other", None])
+    marker = r.choice(["~", "~", "", "="])
+    layers = [G.M([["svc", G.M([[k, first], ["keep", G.I(1)]])]])]
+    if r.chance(1, 2):
+        layers.append(G.M([["svc", G.M([["extra", G.I(2)]])]]))
+    layers.append(G.M([["svc", G.M([[marker + k, second]])]]))
+    if r.chance(1, 3):
+        layers.append(G.M([["svc", G.M([[k, r.choice([G.M([["late", G.I(3)]]), [G.I(3)]])]])]]))
+    uses = ["${svc:%s}" % k, "${svc:%s:mem}" % k, "x-${svc:%s}" % k, "${svc}", "${svc:keep}", "${svc:%s:cpu}" % k]
+    layers.append(G.M([["u%d" % i, u] for i, u in enumerate(r.shuffle(uses)[: r.range(1, 4)])]))
+    return layers
+
+
+def empty_const(r):
+    """A constant (or override) marker on an EMPTY container, over nothing / a plain container of the same or another
+    kind, with a later writer of the key."""
+    kind = r.choice(["map", "list"])
+    empty = G.M([]) if kind == "map" else []
+    full = G.M([["a", G.I(1)]]) if kind == "map" else [G.I(1)]
+    other = [G.I(1)] if kind == "map" else G.M([["a", G.I(1)]])
+    nested = r.chance(1, 2)
+    def wrap(e):
+        return G.M([["p", G.M([e])]]) if nested else G.M([e])
+    layers = []
+    if r.chance(3, 4):
+        layers.append(wrap(["k", r.choice([full, full, other, empty])]))
+    layers.append(wrap([r.choice(["=k", "=k", "~k", "~=k"]), r.choice([empty, empty, full])]))
+    late = r.choice([full, empty, G.M([["b", G.I(2)]]) if kind == "map" else [G.I(2)], G.I(5)])
+    if r.chance(1, 3):
+        layers.append(G.M([["src", late]]))
+        late = "${src}"
+    layers.append(wrap([r.choice(["k", "k", "~k"]), late]))
+    return layers
+
+
+FAMILIES = {"empty_segments": empty_segments, "override_through_path": override_through_path, "empty_const": empty_const,
+            "deep_ref_layers": deep_ref_layers, "repeated_layers": repeated_layers, "escapes_in_containers": escapes_in_containers,
             "both_flags": both_flags}
